@@ -450,7 +450,9 @@ pub fn run(ctx: &Ctx) -> Rep {
                 }
             }
             for n in [6usize, 7] {
-                check_selection(&mut st, n, &mut rng);
+                if !(ctx.smoke() && n == 7) {
+                    check_selection(&mut st, n, &mut rng);
+                }
             }
         });
         if let Err(msg) = r {
@@ -469,7 +471,10 @@ pub fn run(ctx: &Ctx) -> Rep {
     // constructors on the same hands.
     {
         let m = crate::model::Model::build();
-        let s5 = crate::drive::par_subsets::<5, X, _, _>(ctx, if ctx.smoke() { 331 } else { 1 }, mk, |st, c, _| {
+        let s5 = crate::drive::par_subsets::<5, X, _, _>(ctx, if ctx.smoke() { 1321 } else { 1 }, mk, |st, c, _| {
+            if ctx.smoke() && st.rep.distinct >= 150 {
+                return;
+            }
             let mut w = crate::props::words_of(c);
             w.sort_unstable_by(|a, b| b.cmp(a));
             let mut rng = Rng::new(seed, crate::drive::hand_code(c) ^ 0x1919);
@@ -504,7 +509,7 @@ pub fn run(ctx: &Ctx) -> Rep {
         let (r5, _) = merge_states(s5);
         rep.merge(r5);
 
-        let every = ctx.pick(97, 2, 1) as usize;
+        let every = ctx.pick(7000, 2, 1) as usize;
         let classes: Vec<usize> = (1..=m.distinct_keys).filter(|o| o % every == (seed as usize) % every).collect();
         let sc = par_run(ctx, classes.len(), mk, |st, ci| {
             let o = classes[ci];
@@ -531,6 +536,9 @@ pub fn run(ctx: &Ctx) -> Rep {
                     }
                 }
                 for n in [6usize, 7] {
+                    if ctx.smoke() && (n == 7 || arrangement == 1) {
+                        continue;
+                    }
                     let h = &w[..n];
                     // composite constructors and plain ones
                     for f in 0..ctor_forms(n) {
